@@ -101,6 +101,12 @@ namespace H
     if (p.se[idx] == 3 && arg > 0) nested(p.nest_obj, arg - 1);   // conditional recursion: terminates because the argument decreases
   }
   inline void se(Params const& p, int idx, std::string const& arg) { se(p, idx, sidx(arg)); }
+  inline void sew(Params const& p, int idx, int& arg)   // side effect on an in/out reference parameter
+  {
+    emit("C %d S %d %d", p.id, idx, arg);
+    if (p.se[idx] == 1) throw SeThrow{p.id, idx};
+    if (p.se[idx] == 4) arg = 77 + idx;                 // written through _1: the caller sees it
+  }
   inline int ret(Params const& p, int arg)
   {
     emit("C %d V 0 %d", p.id, arg);
